@@ -6,12 +6,6 @@ import Goat.Proofs.Scope
 
 namespace Goat.Scope
 
-/-- the close events a scope has fired, as a function of how far its `Close` has got -/
-def closeSeq : Phase → Bool → List Ev
-  | .opened, _ => []
-  | .closing, _ => [.beforeClose]
-  | .finished, rb => .beforeClose :: ((if rb then rollbackTriple else commitTriple) ++ [.afterClose])
-
 /-- the structural part of the invariant -/
 structure InvS (st : State) : Prop where
   /-- slots beyond the allocated ones are blank -/
@@ -19,11 +13,11 @@ structure InvS (st : State) : Prop where
   freshCtx : ∀ c, st.nCtxs ≤ c → st.ctx c = {}
   parentLt : ∀ c p, (st.scp c).parent = some p → p < c
   ctxLt : ∀ s, s < st.nScopes → (st.scp s).ctx < st.nCtxs
-  /-- the wait group counts outstanding tasks plus signed-on children that have not finished -/
+  /-- the wait group counts outstanding tasks plus signed-on children that have not signed off -/
   wgEq : ∀ s, (st.scp s).wg + (st.scp s).dones = (st.scp s).adds + (st.scp s).kids.length
   donesLe : ∀ s, (st.scp s).dones ≤ (st.scp s).adds
   kidsMem : ∀ c p, (st.scp c).parent = some p → (st.scp c).registered = true →
-    (st.scp c).phase ≠ .finished → c ∈ (st.scp p).kids
+    (st.scp c).phase.live = true → c ∈ (st.scp p).kids
   sharedCtx : ∀ c p, (st.scp c).parent = some p → (st.scp c).iso = false → (st.scp c).ctx = (st.scp p).ctx
   isoCtx : ∀ c p, (st.scp c).parent = some p → (st.scp c).iso = true →
     (st.ctx (st.scp c).ctx).parent = some (st.scp p).ctx ∧ (st.scp p).ctx < (st.scp c).ctx
@@ -34,11 +28,25 @@ structure InvS (st : State) : Prop where
   errDone : ∀ c, (st.ctx c).errors ≠ 0 → (st.ctx c).done = true
 
 /-- close events fired so far, per scope -/
-def Ord (st : State) : Prop := ∀ s, st.closeTrace s = closeSeq (st.scp s).phase (st.scp s).rolled
+def Ord (st : State) : Prop :=
+  ∀ s, st.closeTrace s = closeSeq (st.scp s).phase (st.scp s).rolled (st.scp s).park.isSome
 
-structure Inv (st : State) : Prop where
+/-- what the new phases need: a goroutine is parked only inside a trigger; once a scope's `Wait()`
+has returned, every child that signed on before that has signed off; a listener error of a `Close`
+and the choice of the rollback branch both mean that the context holds an error -/
+structure InvX (st : State) : Prop where
+  parkOk : ∀ s, (st.scp s).park.isSome = true → (evOf (st.scp s).phase (st.scp s).rolled).isSome = true
+  nonLate : ∀ c p, (st.scp c).parent = some p → (st.scp c).registered = true → (st.scp c).late = false →
+    (st.scp p).phase.waited = true → (st.scp c).phase.live = false
+  lfailErr : ∀ s, (st.scp s).lfail = true → (st.ctx (st.scp s).ctx).errors ≠ 0
+  rolledErr : ∀ s, (st.scp s).rolled = true → (st.ctx (st.scp s).ctx).errors ≠ 0
+
+structure Inv0 (st : State) : Prop where
   s : InvS st
   order : Ord st
+
+structure Inv (st : State) : Prop extends Inv0 st where
+  x : InvX st
 
 theorem InvS.parent_lt_n {st : State} (h : InvS st) {c p : Nat} (hp : (st.scp c).parent = some p) :
     c < st.nScopes := by
@@ -66,7 +74,9 @@ theorem invS_init : InvS {} where
   watchDone := fun _ h => by cases h
   errDone := fun _ h => absurd rfl h
 
-theorem inv_init : Inv {} := ⟨invS_init, fun _ => rfl⟩
+theorem inv_init : Inv {} :=
+  ⟨⟨invS_init, fun _ => rfl⟩, ⟨fun _ h => (by cases h), fun _ _ h => (by cases h), fun _ h => (by cases h),
+    fun _ h => (by cases h)⟩⟩
 
 /-! ### transfer along the event machinery -/
 
@@ -108,8 +118,8 @@ theorem InvS.modScp {st : State} {s : Nat} (h : InvS st) (hs : s < st.nScopes) (
     (hreg : (f (st.scp s)).registered = (st.scp s).registered)
     (hiso : (f (st.scp s)).iso = (st.scp s).iso)
     (hctx : (f (st.scp s)).ctx = (st.scp s).ctx)
-    (hph : (f (st.scp s)).phase ≠ .finished → (st.scp s).phase ≠ .finished)
-    (hkids : ∀ c, c ∈ (st.scp s).kids → (st.scp c).phase ≠ .finished → c ≠ s → c ∈ (f (st.scp s)).kids)
+    (hph : (f (st.scp s)).phase.live = true → (st.scp s).phase.live = true)
+    (hkids : ∀ c, c ∈ (st.scp s).kids → (st.scp c).phase.live = true → c ≠ s → c ∈ (f (st.scp s)).kids)
     (hwg : (f (st.scp s)).wg + (f (st.scp s)).dones = (f (st.scp s)).adds + (f (st.scp s)).kids.length)
     (hd : (f (st.scp s)).dones ≤ (f (st.scp s)).adds) : InvS (st.modScp s f) := by
   have hP : ∀ t, ((st.modScp s f).scp t).parent = (st.scp t).parent := by
@@ -128,11 +138,11 @@ theorem InvS.modScp {st : State} {s : Nat} (h : InvS st) (hs : s < st.nScopes) (
     intro t; rw [modScp_scp]; split
     · subst_vars; exact hctx
     · rfl
-  have hPh : ∀ t, ((st.modScp s f).scp t).phase ≠ .finished → (st.scp t).phase ≠ .finished := by
+  have hPh : ∀ t, ((st.modScp s f).scp t).phase.live = true → (st.scp t).phase.live = true := by
     intro t; rw [modScp_scp]; split
     · subst_vars; exact hph
     · exact id
-  have hK : ∀ c t, c ∈ (st.scp t).kids → (st.scp c).phase ≠ .finished → c ≠ s → c ∈ ((st.modScp s f).scp t).kids := by
+  have hK : ∀ c t, c ∈ (st.scp t).kids → (st.scp c).phase.live = true → c ≠ s → c ∈ ((st.modScp s f).scp t).kids := by
     intro c t; rw [modScp_scp]; split
     · subst_vars; exact hkids c
     · exact fun h _ _ => h
@@ -195,14 +205,15 @@ theorem InvS.modCtx {st : State} {c : Nat} (h : InvS st) (hc : c < st.nCtxs) (f 
 /-! ### `Ord` -/
 
 theorem Ord.same {st st' : State} (h : Ord st) (ht : ∀ t, st'.closeTrace t = st.closeTrace t)
-    (hp : ∀ t, (st'.scp t).phase = (st.scp t).phase) (hr : ∀ t, (st'.scp t).rolled = (st.scp t).rolled) :
+    (hp : ∀ t, (st'.scp t).phase = (st.scp t).phase) (hr : ∀ t, (st'.scp t).rolled = (st.scp t).rolled)
+    (hk : ∀ t, (st'.scp t).park = (st.scp t).park) :
     Ord st' := by
-  intro t; rw [ht, hp, hr]; exact h t
+  intro t; rw [ht, hp, hr, hk]; exact h t
 
 /-! ### the acts, one by one -/
 
-theorem inv_on {st : State} (h : Inv st) {s : Nat} (hs : s < st.nScopes) (l : Listener) (k : Nat) :
-    Inv { st.modScp s fun x => { x with listeners := x.listeners ++ [l] } with nListeners := k } := by
+theorem inv_on {st : State} (h : Inv0 st) {s : Nat} (hs : s < st.nScopes) (l : Listener) (k : Nat) :
+    Inv0 { st.modScp s fun x => { x with listeners := x.listeners ++ [l] } with nListeners := k } := by
   have ho : Ord (st.modScp s fun x => { x with listeners := x.listeners ++ [l] }) := by
     intro t
     rw [closeTrace_modScp, modScp_scp]
@@ -211,8 +222,8 @@ theorem inv_on {st : State} (h : Inv st) {s : Nat} (hs : s < st.nScopes) (l : Li
     · exact h.order t
   exact ⟨InvS.withListeners (h.s.modScp hs _ rfl rfl rfl rfl id (fun _ hc _ _ => hc) (h.s.wgEq s) (h.s.donesLe s)) k, ho⟩
 
-theorem inv_addTasks {st : State} (h : Inv st) {s : Nat} (hs : s < st.nScopes) (n : Nat) :
-    Inv (st.modScp s fun x => { x with wg := x.wg + n, adds := x.adds + n }) := by
+theorem inv_addTasks {st : State} (h : Inv0 st) {s : Nat} (hs : s < st.nScopes) (n : Nat) :
+    Inv0 (st.modScp s fun x => { x with wg := x.wg + n, adds := x.adds + n }) := by
   refine ⟨h.s.modScp hs _ rfl rfl rfl rfl id (fun _ hc _ _ => hc) ?_ ?_, ?_⟩
   · have := h.s.wgEq s; simp only []; omega
   · have := h.s.donesLe s; simp only []; omega
@@ -222,9 +233,9 @@ theorem inv_addTasks {st : State} (h : Inv st) {s : Nat} (hs : s < st.nScopes) (
     · subst_vars; exact h.order _
     · exact h.order t
 
-theorem inv_doneTask {st : State} (h : Inv st) {s : Nat} (hs : s < st.nScopes)
+theorem inv_doneTask {st : State} (h : Inv0 st) {s : Nat} (hs : s < st.nScopes)
     (hd : (st.scp s).dones < (st.scp s).adds) :
-    Inv (st.modScp s fun x => { x with wg := x.wg - 1, dones := x.dones + 1 }) := by
+    Inv0 (st.modScp s fun x => { x with wg := x.wg - 1, dones := x.dones + 1 }) := by
   refine ⟨h.s.modScp hs _ rfl rfl rfl rfl id (fun _ hc _ _ => hc) ?_ ?_, ?_⟩
   · have := h.s.wgEq s; simp only []; omega
   · simp only []; omega
@@ -234,35 +245,21 @@ theorem inv_doneTask {st : State} (h : Inv st) {s : Nat} (hs : s < st.nScopes)
     · subst_vars; exact h.order _
     · exact h.order t
 
-theorem inv_appErr {st : State} (h : Inv st) {s : Nat} (hs : s < st.nScopes) : Inv (st.appendError s) :=
+theorem inv_appErr {st : State} (h : Inv0 st) {s : Nat} (hs : s < st.nScopes) : Inv0 (st.appendError s) :=
   ⟨h.s.evStep hs (evStep_appendError st s),
-   h.order.same (fun t => closeTrace_appendError st s t) (fun t => by simp) (fun t => by simp)⟩
+   h.order.same (fun t => closeTrace_appendError st s t) (fun t => by simp) (fun t => by simp) (fun t => by simp)⟩
 
-theorem inv_kill {st : State} (h : Inv st) {s : Nat} (hs : s < st.nScopes) :
-    Inv ((st.addError s).fire s .kill none) :=
+theorem inv_kill {st : State} (h : Inv0 st) {s : Nat} (hs : s < st.nScopes) :
+    Inv0 ((st.addError s).fire s .kill none) :=
   ⟨h.s.evStep hs ((evStep_addError st s).trans (evStep_fire _ s .kill none)),
    h.order.same (fun t => by rw [closeTrace_fire_nonclose _ _ _ _ rfl, closeTrace_addError])
-     (fun t => by simp) (fun t => by simp)⟩
+     (fun t => by simp) (fun t => by simp) (fun t => by simp)⟩
 
-theorem inv_stop {st : State} (h : Inv st) {s : Nat} (hs : s < st.nScopes) :
-    Inv ((st.setDone s).fire s .stop none) :=
+theorem inv_stop {st : State} (h : Inv0 st) {s : Nat} (hs : s < st.nScopes) :
+    Inv0 ((st.setDone s).fire s .stop none) :=
   ⟨h.s.evStep hs ((evStep_setDone st s).trans (evStep_fire _ s .stop none)),
    h.order.same (fun t => by rw [closeTrace_fire_nonclose _ _ _ _ rfl, closeTrace_setDone])
-     (fun t => by simp) (fun t => by simp)⟩
-
-theorem inv_beginClose {st : State} (h : Inv st) {s : Nat} (hs : s < st.nScopes)
-    (hph : (st.scp s).phase = .opened) : Inv (st.beginClose s) := by
-  unfold State.beginClose
-  have h1 : InvS (st.modScp s fun x => { x with phase := .closing }) :=
-    h.s.modScp hs _ rfl rfl rfl rfl (fun _ => by rw [hph]; decide) (fun _ hc _ _ => hc) (h.s.wgEq s) (h.s.donesLe s)
-  refine ⟨h1.evStep (by simpa using hs) (evStep_fire _ s .beforeClose (some s)), ?_⟩
-  intro t
-  rw [closeTrace_fire, closeTrace_modScp, fire_scp, modScp_scp, h.order t]
-  by_cases hts : t = s
-  · subst hts; simp [hph, closeSeq, Ev.isClose]
-  · have : ¬ s = t := fun e => hts e.symm
-    simp [hts, this]
-
+     (fun t => by simp) (fun t => by simp) (fun t => by simp)⟩
 
 /-! ### allocation -/
 
@@ -345,7 +342,7 @@ theorem InvS.addScope {st : State} (h : InvS st) (y : Scp)
     · exact h.donesLe t
   · intro c p
     show (upd st.scp st.nScopes y c).parent = some p → (upd st.scp st.nScopes y c).registered = true →
-      (upd st.scp st.nScopes y c).phase ≠ .finished → c ∈ (upd st.scp st.nScopes y p).kids
+      (upd st.scp st.nScopes y c).phase.live = true → c ∈ (upd st.scp st.nScopes y p).kids
     rw [upd_apply st.scp _ c]; split
     · subst_vars
       intro h1 h2 _
@@ -376,27 +373,29 @@ theorem InvS.addScope {st : State} (h : InvS st) (y : Scp)
       rw [upd_ne _ _ (hold c p h1).2]; exact h.isoCtx c p h1 h2
 
 /-- allocating a scope slot with a fresh record keeps `Ord` -/
-theorem Ord.addScope {st : State} (h : InvS st) (ho : Ord st) (y : Scp) (hph : y.phase = .opened) :
+theorem Ord.addScope {st : State} (h : InvS st) (ho : Ord st) (y : Scp) (hph : y.phase = .opened)
+    (hpk : y.park = none) :
     Ord { st with nScopes := st.nScopes + 1, scp := upd st.scp st.nScopes y } := by
   intro t
   show st.closeTrace t = closeSeq (upd st.scp st.nScopes y t).phase (upd st.scp st.nScopes y t).rolled
+    (upd st.scp st.nScopes y t).park.isSome
   rw [upd_apply]; split
   · subst_vars
-    rw [ho, h.fresh _ (Nat.le_refl _), hph]; rfl
+    rw [ho, h.fresh _ (Nat.le_refl _), hph, hpk]; rfl
   · exact ho t
 
-theorem inv_newRoot {st : State} (h : Inv st) : Inv st.newRoot := by
+theorem inv_newRoot {st : State} (h : Inv0 st) : Inv0 st.newRoot := by
   have h1 : InvS { st with nCtxs := st.nCtxs + 1, ctx := upd st.ctx st.nCtxs {} } :=
     h.s.addCtx {} (fun _ hp => by cases hp) (fun hp => by cases hp) rfl
   have ho1 : Ord { st with nCtxs := st.nCtxs + 1, ctx := upd st.ctx st.nCtxs {} } := h.order
   exact ⟨h1.addScope { ctx := st.nCtxs, path := [st.nScopes] } (fun _ hp => by cases hp)
       (Nat.lt_succ_self _) rfl rfl rfl rfl (fun _ hp => by cases hp) (fun _ hp => by cases hp)
       (fun _ hp => by cases hp),
-    Ord.addScope h1 ho1 _ rfl⟩
+    Ord.addScope h1 ho1 _ rfl rfl⟩
 
 
-theorem inv_newChild {st : State} (h : Inv st) {p : Nat} (hp : p < st.nScopes) (iso : Bool) :
-    Inv (st.newChild p iso) := by
+theorem inv_newChild {st : State} (h : Inv0 st) {p : Nat} (hp : p < st.nScopes) (iso : Bool) :
+    Inv0 (st.newChild p iso) := by
   -- sign-on with the parent
   let st1 : State :=
     if !(st.isDone p) then st.modScp p fun x => { x with wg := x.wg + 1, kids := st.nScopes :: x.kids } else st
@@ -431,12 +430,12 @@ theorem inv_newChild {st : State} (h : Inv st) {p : Nat} (hp : p < st.nScopes) (
         { st1 with nScopes := st1.nScopes + 1,
                    scp := upd st1.scp st1.nScopes
                      { parent := some p, registered := !(st.isDone p), iso := false, ctx := (st.scp p).ctx,
-                       path := (st.scp p).path ++ [st.nScopes] } } := by
+                       path := (st.scp p).path ++ [st.nScopes], late := (st.scp p).phase.waited } } := by
       by_cases hr : (!(st.isDone p)) = true
       · simp only [State.newChild, st1, hr, if_true, Bool.false_eq_true, if_false]; rfl
       · simp only [State.newChild, st1, hr, if_false, Bool.false_eq_true]
     rw [heq]
-    refine ⟨hI1.addScope _ ?_ ?_ rfl rfl rfl rfl ?_ ?_ ?_, Ord.addScope hI1 hO1 _ rfl⟩
+    refine ⟨hI1.addScope _ ?_ ?_ rfl rfl rfl rfl ?_ ?_ ?_, Ord.addScope hI1 hO1 _ rfl rfl⟩
     · intro q hq; cases hq; rw [hn1]; exact hp
     · rw [hnc1]; exact hpctx
     · intro q hq hr; cases hq; rw [hn1]; exact hreg1 hr
@@ -453,12 +452,12 @@ theorem inv_newChild {st : State} (h : Inv st) {p : Nat} (hp : p < st.nScopes) (
         { st1c with nScopes := st1c.nScopes + 1,
                     scp := upd st1c.scp st1c.nScopes
                       { parent := some p, registered := !(st.isDone p), iso := true, ctx := st.nCtxs,
-                        path := (st.scp p).path ++ [st.nScopes] } } := by
+                        path := (st.scp p).path ++ [st.nScopes], late := (st.scp p).phase.waited } } := by
       by_cases hr : (!(st.isDone p)) = true
       · simp only [State.newChild, st1c, st1, hr, if_true]; rfl
       · simp only [State.newChild, st1c, st1, hr, if_true]; rfl
     rw [heq]
-    refine ⟨hI1c.addScope _ ?_ ?_ rfl rfl rfl rfl ?_ ?_ ?_, Ord.addScope hI1c hO1c _ rfl⟩
+    refine ⟨hI1c.addScope _ ?_ ?_ rfl rfl rfl rfl ?_ ?_ ?_, Ord.addScope hI1c hO1c _ rfl rfl⟩
     · intro q hq; cases hq; show p < st1.nScopes; rw [hn1]; exact hp
     · show st.nCtxs < st1.nCtxs + 1; rw [hnc1]; exact Nat.lt_succ_self _
     · intro q hq hr; cases hq; show st1.nScopes ∈ (st1.scp p).kids; rw [hn1]; exact hreg1 hr
@@ -469,42 +468,391 @@ theorem inv_newChild {st : State} (h : Inv st) {p : Nat} (hp : p < st.nScopes) (
       exact ⟨rfl, hpctx⟩
 
 
-/-! ### finishing a `Close` -/
 
-/-- the commit or rollback triple, then AfterClose -/
-def State.closeEvents (st : State) (s : Nat) : State :=
-  (if st.hasErr s then
-      ((st.fire s .beforeRollback (some s)).fire s .rollback (some s)).fire s .afterRollback (some s)
-    else
-      ((st.fire s .beforeCommit (some s)).fire s .commit (some s)).fire s .afterCommit (some s)).fire s
-    .afterClose (some s)
+/-! ### `InvX`: transfer -/
 
-/-- sign off with the parent and record the outcome -/
-def State.signOff (st2 : State) (s : Nat) (rb : Bool) : State :=
-  let st3 :=
-    match (st2.scp s).parent, (st2.scp s).registered with
-    | some p, true => st2.modScp p fun x => { x with wg := x.wg - 1, kids := x.kids.erase s }
-    | _, _ => st2
-  st3.modScp s fun x => { x with phase := .finished, rolled := rb, result := some (st3.hasErr s) }
+/-- the fields of a scope record `InvX` and `Ord` look at -/
+structure KeyEq (a b : Scp) : Prop where
+  parent : a.parent = b.parent
+  registered : a.registered = b.registered
+  late : a.late = b.late
+  ctx : a.ctx = b.ctx
+  phase : a.phase = b.phase
+  park : a.park = b.park
+  rolled : a.rolled = b.rolled
+  lfail : a.lfail = b.lfail
 
-theorem finishClose_eq (st : State) (s : Nat) :
-    st.finishClose s = (st.closeEvents s).signOff s (st.hasErr s) := rfl
+theorem KeyEq.refl (a : Scp) : KeyEq a a := ⟨rfl, rfl, rfl, rfl, rfl, rfl, rfl, rfl⟩
 
-theorem evStep_closeEvents (st : State) (s : Nat) : EvStep st (st.closeEvents s) s := by
-  unfold State.closeEvents
+theorem KeyEq.of_eq {a b : Scp} (h : a = b) : KeyEq a b := h ▸ KeyEq.refl a
+
+/-- one scope record (`s`) changes in its key fields, errors only grow -/
+theorem InvX.transfer {st st' : State} (h : InvX st) (s : Nat)
+    (hother : ∀ t, t ≠ s → KeyEq (st'.scp t) (st.scp t))
+    (herr : ∀ c, (st.ctx c).errors ≤ (st'.ctx c).errors)
+    (hA : (st'.scp s).park.isSome = true → (evOf (st'.scp s).phase (st'.scp s).rolled).isSome = true)
+    (hB : ∀ p, (st'.scp s).parent = some p → (st'.scp s).registered = true → (st'.scp s).late = false →
+        (st'.scp p).phase.waited = true → (st'.scp s).phase.live = false)
+    (hC : ∀ c, c ≠ s → (st.scp c).parent = some s → (st.scp c).registered = true → (st.scp c).late = false →
+        (st'.scp s).phase.waited = true → (st.scp c).phase.live = false)
+    (hD : (st'.scp s).lfail = true → (st'.ctx (st'.scp s).ctx).errors ≠ 0)
+    (hE : (st'.scp s).rolled = true → (st'.ctx (st'.scp s).ctx).errors ≠ 0) : InvX st' where
+  parkOk := by
+    intro t
+    by_cases ht : t = s
+    · subst ht; exact hA
+    · have k := hother t ht
+      rw [k.park, k.phase, k.rolled]; exact h.parkOk t
+  nonLate := by
+    intro c p
+    by_cases hc : c = s
+    · subst hc; exact hB p
+    · have k := hother c hc
+      rw [k.parent, k.registered, k.late, k.phase]
+      by_cases hp : p = s
+      · subst hp; exact hC c hc
+      · rw [(hother p hp).phase]; exact h.nonLate c p
+  lfailErr := by
+    intro t
+    by_cases ht : t = s
+    · subst ht; exact hD
+    · have k := hother t ht
+      rw [k.lfail, k.ctx]
+      intro hl
+      have := h.lfailErr t hl
+      have := herr (st.scp t).ctx
+      omega
+  rolledErr := by
+    intro t
+    by_cases ht : t = s
+    · subst ht; exact hE
+    · have k := hother t ht
+      rw [k.rolled, k.ctx]
+      intro hl
+      have := h.rolledErr t hl
+      have := herr (st.scp t).ctx
+      omega
+
+/-- no key field changes, errors only grow -/
+theorem InvX.keyEq {st st' : State} (h : InvX st) (hk : ∀ t, KeyEq (st'.scp t) (st.scp t))
+    (herr : ∀ c, (st.ctx c).errors ≤ (st'.ctx c).errors) : InvX st' := by
+  have k0 := hk 0
+  refine h.transfer 0 (fun t _ => hk t) herr ?_ ?_ ?_ ?_ ?_
+  · rw [k0.park, k0.phase, k0.rolled]; exact h.parkOk 0
+  · intro p; rw [k0.parent, k0.registered, k0.late, k0.phase, (hk p).phase]; exact h.nonLate 0 p
+  · intro c _; rw [k0.phase]; exact h.nonLate c 0
+  · rw [k0.lfail, k0.ctx]; intro hl
+    have := h.lfailErr 0 hl
+    have := herr (st.scp 0).ctx
+    omega
+  · rw [k0.rolled, k0.ctx]; intro hl
+    have := h.rolledErr 0 hl
+    have := herr (st.scp 0).ctx
+    omega
+
+theorem InvX.evStep {st st' : State} {s : Nat} (h : InvX st) (e : EvStep st st' s) : InvX st' :=
+  h.keyEq (fun t => by rw [e.scp]; exact KeyEq.refl _) e.ctx_errors
+
+theorem keyEq_modScp (st : State) (s : Nat) (f : Scp → Scp) (hf : KeyEq (f (st.scp s)) (st.scp s)) (t : Nat) :
+    KeyEq ((st.modScp s f).scp t) (st.scp t) := by
+  rw [modScp_scp]; split
+  · subst_vars; exact hf
+  · exact KeyEq.refl _
+
+theorem InvX.modScpKey {st : State} (h : InvX st) (s : Nat) (f : Scp → Scp)
+    (hf : KeyEq (f (st.scp s)) (st.scp s)) : InvX (st.modScp s f) :=
+  h.keyEq (keyEq_modScp st s f hf) (fun _ => Nat.le_refl _)
+
+/-- a fresh scope record `y` in slot `nScopes`; the other records keep their key fields -/
+theorem InvX.addScope {st st' : State} (h : InvX st) (hs : InvS st)
+    (hother : ∀ t, t ≠ st.nScopes → KeyEq (st'.scp t) (st.scp t))
+    (hctx : st'.ctx = st.ctx ∨ ∀ c, (st.ctx c).errors ≤ (st'.ctx c).errors)
+    (hpk : (st'.scp st.nScopes).park = none)
+    (hlate : ∀ p, (st'.scp st.nScopes).parent = some p → p < st.nScopes ∧
+      (st'.scp st.nScopes).late = (st.scp p).phase.waited)
+    (hlf : (st'.scp st.nScopes).lfail = false) (hrb : (st'.scp st.nScopes).rolled = false) : InvX st' := by
+  have herr : ∀ c, (st.ctx c).errors ≤ (st'.ctx c).errors := by
+    rcases hctx with hc | hc
+    · intro c; rw [hc]; exact Nat.le_refl _
+    · exact hc
+  refine h.transfer st.nScopes hother herr ?_ ?_ ?_ ?_ ?_
+  · rw [hpk]; intro hf; cases hf
+  · intro p hp _ hl hw
+    obtain ⟨hlt, hle⟩ := hlate p hp
+    rw [(hother p (by omega)).phase, ← hle, hl] at hw
+    cases hw
+  · intro c _ hp
+    have h1 := hs.parent_lt_n hp
+    have h2 := hs.parentLt c _ hp
+    omega
+  · rw [hlf]; intro hf; cases hf
+  · rw [hrb]; intro hf; cases hf
+
+/-! ### a piece of a trigger of `Close` -/
+
+theorem InvS.trigStep {st st' : State} {s : Nat} {ev : Ev} (h : InvS st) (hs : s < st.nScopes)
+    (hev : evOf (st.scp s).phase (st.scp s).rolled = some ev) (ts : TrigStep st s st') : InvS st' := by
+  obtain ⟨hl, hnl, _⟩ := evOf_facts hev
+  cases ts with
+  | parked st1 p e =>
+    have h1 := h.evStep hs e
+    refine h1.modScp (by rw [e.nScopes]; exact hs) _ rfl rfl rfl rfl id (fun _ hc _ _ => hc) (h1.wgEq s) (h1.donesLe s)
+  | ended st1 failed e herr =>
+    have h1 := h.evStep hs e
+    refine h1.modScp (by rw [e.nScopes]; exact hs) _ rfl rfl rfl rfl ?_ (fun _ hc _ _ => hc) (h1.wgEq s) (h1.donesLe s)
+    intro _; rw [e.scp]; exact hl
+
+theorem Ord.trigStep {st st' : State} {s : Nat} {ev : Ev} (ho : Ord st)
+    (hev : evOf (st.scp s).phase (st.scp s).rolled = some ev) (ts : TrigStep st s st')
+    (htr : ∀ u, st'.closeTrace u =
+      st.closeTrace u ++ (if s = u ∧ (st.scp s).park.isSome = false then [ev] else [])) : Ord st' := by
+  obtain ⟨_, _, _, _, _, hidx, _, htake, _⟩ := evOf_facts hev
+  intro u
+  rw [htr u, ho u]
+  cases ts with
+  | parked st1 p e =>
+    rw [modScp_scp, e.scp]
+    by_cases hu : u = s
+    · subst hu
+      simp only [if_true, true_and, Option.isSome_some]
+      cases hpk : (st.scp u).park.isSome
+      · simp [closeSeq, htake]
+      · simp [closeSeq]
+    · have : ¬ s = u := fun e => hu e.symm
+      simp [hu, this]
+  | ended st1 failed e herr =>
+    rw [modScp_scp, e.scp]
+    by_cases hu : u = s
+    · subst hu
+      simp only [if_true, true_and, Option.isSome_none]
+      cases hpk : (st.scp u).park.isSome
+      · simp [closeSeq, htake, hidx]
+      · simp [closeSeq, hidx]
+    · have : ¬ s = u := fun e => hu e.symm
+      simp [hu, this]
+
+theorem InvX.trigStep {st st' : State} {s : Nat} {ev : Ev} (h : InvX st)
+    (hev : evOf (st.scp s).phase (st.scp s).rolled = some ev) (ts : TrigStep st s st') : InvX st' := by
+  obtain ⟨hl, hnl, _, _, hw, _, _, _, _⟩ := evOf_facts hev
+  cases ts with
+  | parked st1 p e =>
+    have h1 := h.evStep e
+    refine h1.transfer s (fun t ht => KeyEq.of_eq (modScp_scp_ne st1 _ ht)) (fun _ => Nat.le_refl _) ?_ ?_ ?_ ?_ ?_
+    · intro _; rw [modScp_scp_same, e.scp]; simp [hev]
+    · intro p _ _ _ _
+      -- the scope is inside a trigger: it is live, so (by `nonLate` before the step) this cannot be
+      rw [modScp_scp_same, e.scp] at *
+      rename_i hp hr hla hwp
+      rw [modScp_scp, e.scp] at hwp
+      split at hwp
+      · subst_vars
+        exact h.nonLate _ _ hp hr hla hwp
+      · exact h.nonLate _ _ hp hr hla hwp
+    · intro c _ hp hr hla hws
+      rw [modScp_scp_same, e.scp] at hws
+      rw [e.scp] at hp hr hla ⊢
+      exact h.nonLate c s hp hr hla hws
+    · rw [modScp_scp_same, modScp_ctx]; exact h1.lfailErr s
+    · rw [modScp_scp_same, modScp_ctx]; exact h1.rolledErr s
+  | ended st1 failed e herr =>
+    have h1 := h.evStep e
+    refine h1.transfer s (fun t ht => KeyEq.of_eq (modScp_scp_ne st1 _ ht)) (fun _ => Nat.le_refl _) ?_ ?_ ?_ ?_ ?_
+    · intro hf; rw [modScp_scp_same] at hf; cases hf
+    · intro p hp hr hla hwp
+      rw [modScp_scp_same, e.scp] at hp hr hla ⊢
+      rw [modScp_scp, e.scp] at hwp
+      have hlive : (st.scp s).phase.live = false := by
+        split at hwp
+        · subst_vars
+          exact h.nonLate _ _ hp hr hla (hw hwp)
+        · exact h.nonLate _ _ hp hr hla hwp
+      rw [hl] at hlive; cases hlive
+    · intro c _ hp hr hla hws
+      rw [modScp_scp_same, e.scp] at hws
+      rw [e.scp] at hp hr hla ⊢
+      exact h.nonLate c s hp hr hla (hw hws)
+    · rw [modScp_scp_same, modScp_ctx]
+      cases failed
+      · exact h1.lfailErr s
+      · intro _; have := herr rfl; rw [e.scp]; exact this
+    · rw [modScp_scp_same, modScp_ctx]; exact h1.rolledErr s
+
+/-! ### the steps of the closing goroutine -/
+
+/-- the state after `pick`: `Wait()` has returned `Err()` -/
+def State.pick (st : State) (s : Nat) : State :=
+  st.modScp s fun x => { x with phase := .t0, rolled := st.hasErr s }
+
+/-- the state after `parent.DoneTask()` -/
+def State.signOff (st : State) (s : Nat) : State :=
+  (st.signOffParent s).modScp s fun x => { x with phase := .signed }
+
+/-- the state after `return scp.Err()` -/
+def State.ret (st : State) (s : Nat) : State :=
+  st.modScp s fun x => { x with phase := .finished, result := some (st.hasErr s) }
+
+/-- the five kinds of step of a closing goroutine -/
+inductive MicroCase (st : State) (s : Nat) : State → Outcome → Prop where
+  | resume (p : Park) (ev : Ev) : (st.scp s).park = some p → st.gates p.gate = true →
+      evOf (st.scp s).phase (st.scp s).rolled = some ev → MicroCase st s (st.resumeTrigger s ev p) .ok
+  | start (ev : Ev) : (st.scp s).park = none → evOf (st.scp s).phase (st.scp s).rolled = some ev →
+      MicroCase st s (st.startTrigger s ev) .ok
+  | pick : (st.scp s).park = none → (st.scp s).phase = .closing → (st.scp s).wg = 0 →
+      MicroCase st s (st.pick s) .ok
+  | signOff : (st.scp s).park = none → (st.scp s).phase = .signing → MicroCase st s (st.signOff s) .ok
+  | ret : (st.scp s).park = none → (st.scp s).phase = .signed →
+      MicroCase st s (st.ret s) (.closed (st.hasErr s))
+
+theorem micro_cases {st st' : State} {s : Nat} {o : Outcome} (hm : micro st s = some (st', o)) :
+    MicroCase st s st' o := by
+  unfold micro at hm
+  split at hm
+  · rename_i p hp
+    split at hm
+    · rename_i hg
+      split at hm
+      · rename_i ev hev
+        simp only [Option.some.injEq, Prod.mk.injEq] at hm
+        rw [← hm.1, ← hm.2]; exact .resume p ev hp hg hev
+      · cases hm
+    · cases hm
+  · rename_i hp
+    split at hm
+    · rename_i ev hev
+      simp only [Option.some.injEq, Prod.mk.injEq] at hm
+      rw [← hm.1, ← hm.2]; exact .start ev hp hev
+    · split at hm
+      · rename_i hph
+        split at hm
+        · rename_i hwg
+          simp only [Option.some.injEq, Prod.mk.injEq] at hm
+          rw [← hm.1, ← hm.2]; exact .pick hp hph hwg
+        · cases hm
+      · rename_i hph
+        simp only [Option.some.injEq, Prod.mk.injEq] at hm
+        rw [← hm.1, ← hm.2]; exact .signOff hp hph
+      · rename_i hph
+        simp only [Option.some.injEq, Prod.mk.injEq] at hm
+        rw [← hm.1, ← hm.2]; exact .ret hp hph
+      · cases hm
+
+theorem InvX.park_none {st : State} (h : InvX st) {s : Nat}
+    (he : evOf (st.scp s).phase (st.scp s).rolled = none) : (st.scp s).park = none := by
+  cases hp : (st.scp s).park with
+  | none => rfl
+  | some p =>
+    have := h.parkOk s (by rw [hp]; rfl)
+    rw [he] at this; cases this
+
+theorem inv_trig {st st' : State} {s : Nat} {ev : Ev} (h : Inv st) (hs : s < st.nScopes)
+    (hev : evOf (st.scp s).phase (st.scp s).rolled = some ev) (ts : TrigStep st s st')
+    (htr : ∀ u, st'.closeTrace u =
+      st.closeTrace u ++ (if s = u ∧ (st.scp s).park.isSome = false then [ev] else [])) : Inv st' :=
+  ⟨⟨h.s.trigStep hs hev ts, h.order.trigStep hev ts htr⟩, h.x.trigStep hev ts⟩
+
+theorem inv_resume {st : State} {s : Nat} {ev : Ev} {p : Park} (h : Inv st) (hs : s < st.nScopes)
+    (hp : (st.scp s).park = some p) (hev : evOf (st.scp s).phase (st.scp s).rolled = some ev) :
+    Inv (st.resumeTrigger s ev p) :=
+  inv_trig h hs hev (trigStep_resumeTrigger st s ev p) (fun u => by
+    rw [closeTrace_resumeTrigger, hp]; simp)
+
+theorem inv_start {st : State} {s : Nat} {ev : Ev} (h : Inv st) (hs : s < st.nScopes)
+    (hp : (st.scp s).park = none) (hev : evOf (st.scp s).phase (st.scp s).rolled = some ev) :
+    Inv (st.startTrigger s ev) :=
+  inv_trig h hs hev (trigStep_startTrigger st s ev) (fun u => by
+    rw [closeTrace_startTrigger, hp, (evOf_facts hev).2.2.2.2.2.2.1]; simp)
+
+/-- a change of the phase of `s` (and of fields no invariant looks at) between two phases with the
+same number of completed events, neither of them inside a trigger -/
+theorem inv_beginMark {st : State} {s : Nat} (h : Inv st) (hs : s < st.nScopes)
+    (hph : (st.scp s).phase = .opened) : Inv (st.modScp s fun x => { x with phase := .begun }) := by
+  have hpk : (st.scp s).park = none := h.x.park_none (by rw [hph]; rfl)
+  refine ⟨⟨?_, ?_⟩, ?_⟩
+  · exact h.s.modScp hs _ rfl rfl rfl rfl (fun _ => by rw [hph]; rfl) (fun _ hc _ _ => hc) (h.s.wgEq s) (h.s.donesLe s)
+  · intro t
+    rw [closeTrace_modScp, modScp_scp]
+    split
+    · subst_vars; rw [h.order, hph, hpk]; rfl
+    · exact h.order t
+  · refine h.x.transfer s (fun t ht => KeyEq.of_eq (modScp_scp_ne st _ ht)) (fun _ => Nat.le_refl _) ?_ ?_ ?_ ?_ ?_
+    · rw [modScp_scp_same]; intro hf; rw [hpk] at hf; cases hf
+    · intro p hp hr hla hw
+      rw [modScp_scp_same] at hp hr hla
+      rw [modScp_scp] at hw
+      have : (st.scp s).phase.live = false := by
+        split at hw
+        · subst_vars; cases hw
+        · exact h.x.nonLate _ _ hp hr hla hw
+      rw [hph] at this; cases this
+    · intro c _ _ _ _ hw; rw [modScp_scp_same] at hw; cases hw
+    · rw [modScp_scp_same, modScp_ctx]; exact h.x.lfailErr s
+    · rw [modScp_scp_same, modScp_ctx]; exact h.x.rolledErr s
+
+theorem inv_beginClose {st : State} (h : Inv st) {s : Nat} (hs : s < st.nScopes)
+    (hph : (st.scp s).phase = .opened) : Inv (st.beginClose s) := by
+  unfold State.beginClose
+  have h0 := inv_beginMark h hs hph
+  have hpk : (st.scp s).park = none := h.x.park_none (by rw [hph]; rfl)
+  exact inv_start h0 (by simpa using hs) (by rw [modScp_scp_same]; exact hpk) (by rw [modScp_scp_same]; rfl)
+
+theorem inv_pick {st : State} {s : Nat} (h : Inv st) (hs : s < st.nScopes) (hpk : (st.scp s).park = none)
+    (hph : (st.scp s).phase = .closing) (hwg : (st.scp s).wg = 0) : Inv (st.pick s) := by
+  unfold State.pick
+  have hkids : (st.scp s).kids = [] := by
+    have h1 := h.s.wgEq s
+    have h2 := h.s.donesLe s
+    rw [hwg] at h1
+    exact List.eq_nil_of_length_eq_zero (by omega)
+  refine ⟨⟨?_, ?_⟩, ?_⟩
+  · exact h.s.modScp hs _ rfl rfl rfl rfl (fun _ => by rw [hph]; rfl) (fun _ hc _ _ => hc) (h.s.wgEq s) (h.s.donesLe s)
+  · intro t
+    rw [closeTrace_modScp, modScp_scp]
+    split
+    · subst_vars; rw [h.order, hph, hpk]
+      cases (st.scp t).rolled <;> cases st.hasErr t <;> rfl
+    · exact h.order t
+  · refine h.x.transfer s (fun t ht => KeyEq.of_eq (modScp_scp_ne st _ ht)) (fun _ => Nat.le_refl _) ?_ ?_ ?_ ?_ ?_
+    · rw [modScp_scp_same]; intro hf; rw [hpk] at hf; cases hf
+    · intro p hp hr hla hw
+      rw [modScp_scp_same] at hp hr hla
+      rw [modScp_scp] at hw
+      have : (st.scp s).phase.live = false := by
+        split at hw
+        · subst_vars
+          have := h.s.parentLt _ _ hp
+          omega
+        · exact h.x.nonLate _ _ hp hr hla hw
+      rw [hph] at this; cases this
+    · intro c _ hp hr _ _
+      cases hl : (st.scp c).phase.live with
+      | false => rfl
+      | true =>
+        have := h.s.kidsMem c s hp hr hl
+        rw [hkids] at this; cases this
+    · rw [modScp_scp_same, modScp_ctx]; exact h.x.lfailErr s
+    · rw [modScp_scp_same, modScp_ctx]
+      intro hr
+      simpa [State.hasErr, State.ctxOf] using hr
+
+theorem signOffParent_scp_self (st : State) (s : Nat) (hne : ∀ p, (st.scp s).parent = some p → p ≠ s) :
+    (st.signOffParent s).scp s = st.scp s := by
+  unfold State.signOffParent
   split
-  · exact (((evStep_fire _ s _ _).trans (evStep_fire _ s _ _)).trans (evStep_fire _ s _ _)).trans (evStep_fire _ s _ _)
-  · exact (((evStep_fire _ s _ _).trans (evStep_fire _ s _ _)).trans (evStep_fire _ s _ _)).trans (evStep_fire _ s _ _)
+  · rename_i p hp _
+    exact modScp_scp_ne st _ (fun e => hne p hp e.symm)
+  · rfl
 
-theorem closeTrace_closeEvents (st : State) (s t : Nat) :
-    (st.closeEvents s).closeTrace t =
-      st.closeTrace t ++
-        (if s = t then (if st.hasErr s then rollbackTriple else commitTriple) ++ [.afterClose] else []) := by
-  unfold State.closeEvents
-  by_cases hst : s = t
-  · subst hst
-    split <;> simp [closeTrace_fire, Ev.isClose, rollbackTriple, commitTriple, *]
-  · split <;> simp [closeTrace_fire, hst]
+theorem signOffParent_keyEq (st : State) (s t : Nat) : KeyEq ((st.signOffParent s).scp t) (st.scp t) := by
+  unfold State.signOffParent
+  split
+  · exact keyEq_modScp st _ _ ⟨rfl, rfl, rfl, rfl, rfl, rfl, rfl, rfl⟩ t
+  · exact KeyEq.refl _
+
+theorem signOffParent_ctx (st : State) (s : Nat) : (st.signOffParent s).ctx = st.ctx := by
+  unfold State.signOffParent; split <;> rfl
+
+theorem signOffParent_closeTrace (st : State) (s t : Nat) : (st.signOffParent s).closeTrace t = st.closeTrace t := by
+  unfold State.signOffParent; split <;> rfl
 
 theorem modScp_comm (st : State) {a b : Nat} (hab : a ≠ b) (f g : Scp → Scp) :
     (st.modScp a f).modScp b g = (st.modScp b g).modScp a f := by
@@ -515,57 +863,26 @@ theorem modScp_comm (st : State) {a b : Nat} (hab : a ≠ b) (f g : Scp → Scp)
   simp only [upd_apply]
   by_cases h1 : j = a <;> by_cases h2 : j = b <;> simp_all
 
-theorem signOff_phase (st2 : State) (s : Nat) (rb : Bool) (t : Nat) :
-    ((st2.signOff s rb).scp t).phase = if t = s then .finished else (st2.scp t).phase := by
-  unfold State.signOff
-  simp only []
-  rw [modScp_scp]
-  split
-  · rfl
-  · split
-    · rw [modScp_scp]; split <;> simp_all
-    · rfl
-
-theorem signOff_rolled (st2 : State) (s : Nat) (rb : Bool) (t : Nat) :
-    ((st2.signOff s rb).scp t).rolled = if t = s then rb else (st2.scp t).rolled := by
-  unfold State.signOff
-  simp only []
-  rw [modScp_scp]
-  split
-  · rfl
-  · split
-    · rw [modScp_scp]; split <;> simp_all
-    · rfl
-
-theorem signOff_closeTrace (st2 : State) (s : Nat) (rb : Bool) (t : Nat) :
-    (st2.signOff s rb).closeTrace t = st2.closeTrace t := by
-  unfold State.signOff
-  simp only []
-  split <;> rfl
-
-theorem InvS.signOff {st2 : State} (h : InvS st2) {s : Nat} (hs : s < st2.nScopes)
-    (hph : (st2.scp s).phase = .closing) (rb : Bool) : InvS (st2.signOff s rb) := by
-  unfold State.signOff
-  simp only []
-  have hmark : ∀ r : Option Bool,
-      InvS (st2.modScp s fun x => { x with phase := .finished, rolled := rb, result := r }) := fun r =>
-    h.modScp hs _ rfl rfl rfl rfl (fun hne => absurd rfl hne) (fun _ hc _ _ => hc) (h.wgEq s) (h.donesLe s)
+theorem InvS.signOff {st : State} (h : InvS st) {s : Nat} (hs : s < st.nScopes)
+    (hph : (st.scp s).phase.live = true) : InvS (st.signOff s) := by
+  unfold State.signOff State.signOffParent
+  have hmark : InvS (st.modScp s fun x => { x with phase := .signed }) :=
+    h.modScp hs _ rfl rfl rfl rfl (fun hne => by cases hne) (fun _ hc _ _ => hc) (h.wgEq s) (h.donesLe s)
   split
   · rename_i p hpar hreg
     have hlt := h.parentLt s p hpar
     have hps : p ≠ s := by omega
-    rw [modScp_comm st2 hps]
-    have hm := hmark (some ((st2.modScp p fun x => { x with wg := x.wg - 1, kids := x.kids.erase s }).hasErr s))
-    have hp : p < st2.nScopes := by omega
-    have hscp_p : ∀ g : Scp → Scp, (st2.modScp s g).scp p = st2.scp p := fun g => modScp_scp_ne st2 g hps
-    have hmem : s ∈ (st2.scp p).kids := h.kidsMem s p hpar hreg (by rw [hph]; decide)
-    refine hm.modScp (by simpa using hp) _ rfl rfl rfl rfl id ?_ ?_ ?_
+    rw [modScp_comm st hps]
+    have hp : p < st.nScopes := by omega
+    have hscp_p : ∀ g : Scp → Scp, (st.modScp s g).scp p = st.scp p := fun g => modScp_scp_ne st g hps
+    have hmem : s ∈ (st.scp p).kids := h.kidsMem s p hpar hreg hph
+    refine hmark.modScp (by simpa using hp) _ rfl rfl rfl rfl id ?_ ?_ ?_
     · intro c hc hcph _
       rw [hscp_p] at hc ⊢
       have hcs : c ≠ s := by
         intro e; subst e
         rw [modScp_scp_same] at hcph
-        exact hcph rfl
+        cases hcph
       exact (List.mem_erase_of_ne hcs).mpr hc
     · rw [hscp_p]
       have h1 := h.wgEq p
@@ -575,93 +892,293 @@ theorem InvS.signOff {st2 : State} (h : InvS st2) {s : Nat} (hs : s < st2.nScope
       simp only []
       omega
     · rw [hscp_p]; exact h.donesLe p
-  · exact hmark _
+  · exact hmark
 
-theorem inv_finishClose {st : State} (h : Inv st) {s : Nat} (hs : s < st.nScopes)
-    (hph : (st.scp s).phase = .closing) : Inv (st.finishClose s) := by
-  rw [finishClose_eq]
-  have e := evStep_closeEvents st s
-  have h2 : InvS (st.closeEvents s) := h.s.evStep hs e
-  refine ⟨h2.signOff (by rw [e.nScopes]; exact hs) (by rw [e.scp]; exact hph) _, ?_⟩
-  intro t
-  rw [signOff_closeTrace, signOff_phase, signOff_rolled, closeTrace_closeEvents, e.scp, h.order t]
-  by_cases hts : t = s
-  · subst hts
-    simp [hph, closeSeq]
-  · have : ¬ s = t := fun e => hts e.symm
-    simp [hts, this]
+theorem inv_signOff {st : State} {s : Nat} (h : Inv st) (hs : s < st.nScopes) (hpk : (st.scp s).park = none)
+    (hph : (st.scp s).phase = .signing) : Inv (st.signOff s) := by
+  have hself : (st.signOffParent s).scp s = st.scp s :=
+    signOffParent_scp_self st s (fun p hp e => by have := h.s.parentLt s p hp; omega)
+  refine ⟨⟨h.s.signOff hs (by rw [hph]; rfl), ?_⟩, ?_⟩
+  · intro t
+    unfold State.signOff
+    rw [closeTrace_modScp, signOffParent_closeTrace, modScp_scp]
+    split
+    · subst_vars; rw [hself, h.order, hph, hpk]; rfl
+    · have k := signOffParent_keyEq st s t
+      rw [k.phase, k.rolled, k.park]; exact h.order t
+  · have h1 : InvX (st.signOffParent s) :=
+      h.x.keyEq (signOffParent_keyEq st s) (fun c => by rw [signOffParent_ctx]; exact Nat.le_refl _)
+    unfold State.signOff
+    refine h1.transfer s (fun t ht => KeyEq.of_eq (modScp_scp_ne _ _ ht)) (fun _ => Nat.le_refl _) ?_ ?_ ?_ ?_ ?_
+    · rw [modScp_scp_same, hself]; intro hf; rw [hpk] at hf; cases hf
+    · intro _ _ _ _ _; rw [modScp_scp_same]; rfl
+    · intro c _ hp hr hla _
+      have k := signOffParent_keyEq st s c
+      rw [k.parent] at hp; rw [k.registered] at hr; rw [k.late] at hla; rw [k.phase]
+      exact h.x.nonLate c s hp hr hla (by rw [hph]; rfl)
+    · rw [modScp_scp_same, modScp_ctx]; exact h1.lfailErr s
+    · rw [modScp_scp_same, modScp_ctx]; exact h1.rolledErr s
+
+theorem inv_ret {st : State} {s : Nat} (h : Inv st) (hs : s < st.nScopes) (hpk : (st.scp s).park = none)
+    (hph : (st.scp s).phase = .signed) : Inv (st.ret s) := by
+  unfold State.ret
+  refine ⟨⟨?_, ?_⟩, ?_⟩
+  · exact h.s.modScp hs _ rfl rfl rfl rfl (fun hne => by cases hne) (fun _ hc _ _ => hc) (h.s.wgEq s) (h.s.donesLe s)
+  · intro t
+    rw [closeTrace_modScp, modScp_scp]
+    split
+    · subst_vars; rw [h.order, hph, hpk]; rfl
+    · exact h.order t
+  · refine h.x.transfer s (fun t ht => KeyEq.of_eq (modScp_scp_ne st _ ht)) (fun _ => Nat.le_refl _) ?_ ?_ ?_ ?_ ?_
+    · rw [modScp_scp_same]; intro hf; rw [hpk] at hf; cases hf
+    · intro _ _ _ _ _; rw [modScp_scp_same]; rfl
+    · intro c _ hp hr hla _
+      exact h.x.nonLate c s hp hr hla (by rw [hph]; rfl)
+    · rw [modScp_scp_same, modScp_ctx]; exact h.x.lfailErr s
+    · rw [modScp_scp_same, modScp_ctx]; exact h.x.rolledErr s
+
+theorem inv_microCase {st st' : State} {s : Nat} {o : Outcome} (h : Inv st) (hs : s < st.nScopes)
+    (m : MicroCase st s st' o) : Inv st' := by
+  cases m with
+  | resume p ev hp _ hev => exact inv_resume h hs hp hev
+  | start ev hp hev => exact inv_start h hs hp hev
+  | pick hp hph hwg => exact inv_pick h hs hp hph hwg
+  | signOff hp hph => exact inv_signOff h hs hp hph
+  | ret hp hph => exact inv_ret h hs hp hph
+
+theorem inv_micro {st st' : State} {s : Nat} {o : Outcome} (h : Inv st) (hs : s < st.nScopes)
+    (hm : micro st s = some (st', o)) : Inv st' := inv_microCase h hs (micro_cases hm)
+
+theorem TrigStep.nScopes {st st' : State} {s : Nat} (ts : TrigStep st s st') : st'.nScopes = st.nScopes := by
+  cases ts with
+  | parked st1 p e => exact e.nScopes
+  | ended st1 failed e _ => exact e.nScopes
+
+theorem signOffParent_nScopes (st : State) (s : Nat) : (st.signOffParent s).nScopes = st.nScopes := by
+  unfold State.signOffParent; split <;> rfl
+
+theorem microCase_nScopes {st st' : State} {s : Nat} {o : Outcome} (m : MicroCase st s st' o) :
+    st'.nScopes = st.nScopes := by
+  cases m with
+  | resume p ev _ _ _ => exact (trigStep_resumeTrigger st s ev p).nScopes
+  | start ev _ _ => exact (trigStep_startTrigger st s ev).nScopes
+  | pick _ _ _ => rfl
+  | signOff _ _ => exact signOffParent_nScopes st s
+  | ret _ _ => rfl
+
+/-- whatever every step of the closing goroutine of `s` preserves, its running on preserves -/
+theorem runSteps_induct {P : State → Prop} {s : Nat}
+    (hP : ∀ st st' o, P st → micro st s = some (st', o) → P st') :
+    ∀ n st, P st → P (runSteps micro s n st).1 := by
+  intro n
+  induction n with
+  | zero => intro st h; exact h
+  | succ n ih =>
+    intro st h
+    unfold runSteps
+    cases hm : micro st s with
+    | none => exact h
+    | some r =>
+      obtain ⟨st', o⟩ := r
+      cases o with
+      | closed e => exact hP st st' _ h hm
+      | ok => exact ih st' (hP st st' _ h hm)
+      | refused => exact ih st' (hP st st' _ h hm)
+      | panic => exact ih st' (hP st st' _ h hm)
+
+theorem inv_runSteps {st : State} {s : Nat} (h : Inv st) (hs : s < st.nScopes) (n : Nat) :
+    Inv (runSteps micro s n st).1 ∧ s < (runSteps micro s n st).1.nScopes :=
+  runSteps_induct (P := fun x => Inv x ∧ s < x.nScopes)
+    (fun a b o ha hm => ⟨inv_micro ha.1 ha.2 hm, by rw [microCase_nScopes (micro_cases hm)]; exact ha.2⟩) n st ⟨h, hs⟩
 
 /-! ### the watcher -/
 
-theorem inv_propagate {st : State} (h : Inv st) {c : Nat} (hc : c < st.nCtxs) (asKill : Bool) :
-    Inv (st.modCtx c fun x =>
+theorem inv_propagate {st : State} (h : Inv0 st) {c : Nat} (hc : c < st.nCtxs) (asKill : Bool) :
+    Inv0 (st.modCtx c fun x =>
       { x with errors := if asKill then x.errors + 1 else x.errors, done := true, watch := false }) :=
-  ⟨h.s.modCtx hc _ rfl (fun _ _ => rfl) (fun _ => rfl), h.order.same (fun _ => rfl) (fun _ => rfl) (fun _ => rfl)⟩
+  ⟨h.s.modCtx hc _ rfl (fun _ _ => rfl) (fun _ => rfl),
+   h.order.same (fun _ => rfl) (fun _ => rfl) (fun _ => rfl) (fun _ => rfl)⟩
 
-theorem inv_watcherExit {st : State} (h : Inv st) {c : Nat} (hc : c < st.nCtxs) (hd : (st.ctx c).done = true) :
-    Inv (st.modCtx c fun x => { x with watch := false }) :=
+theorem inv_watcherExit {st : State} (h : Inv0 st) {c : Nat} (hc : c < st.nCtxs) (hd : (st.ctx c).done = true) :
+    Inv0 (st.modCtx c fun x => { x with watch := false }) :=
   ⟨h.s.modCtx hc _ rfl (fun _ _ => hd) (fun he => h.s.errDone c he),
-   h.order.same (fun _ => rfl) (fun _ => rfl) (fun _ => rfl)⟩
+   h.order.same (fun _ => rfl) (fun _ => rfl) (fun _ => rfl) (fun _ => rfl)⟩
+
+theorem invX_modCtx {st : State} (h : InvX st) (c : Nat) (f : Ctx → Ctx)
+    (he : (st.ctx c).errors ≤ (f (st.ctx c)).errors) : InvX (st.modCtx c f) :=
+  h.keyEq (fun _ => KeyEq.refl _) (fun d => by
+    rw [modCtx_ctx]; split
+    · subst_vars; exact he
+    · exact Nat.le_refl _)
+
+/-! ### gates -/
+
+theorem inv_release {st : State} (h : Inv st) (g : Nat) : Inv { st with gates := upd st.gates g true } :=
+  ⟨⟨⟨h.s.fresh, h.s.freshCtx, h.s.parentLt, h.s.ctxLt, h.s.wgEq, h.s.donesLe, h.s.kidsMem, h.s.sharedCtx,
+      h.s.isoCtx, h.s.ctxParentLt, h.s.watchDone, h.s.errDone⟩, h.order⟩,
+   h.x.keyEq (fun _ => KeyEq.refl _) (fun _ => Nat.le_refl _)⟩
+
+/-! ### allocation and `InvX` -/
+
+theorem newRoot_scp_old (st : State) {t : Nat} (ht : t ≠ st.nScopes) : st.newRoot.scp t = st.scp t := by
+  show upd st.scp st.nScopes _ t = _
+  rw [upd_ne _ _ ht]
+
+theorem newRoot_ctx (st : State) (c : Nat) : st.newRoot.ctx c = if c = st.nCtxs then {} else st.ctx c := rfl
+
+theorem newRoot_scp_new (st : State) : st.newRoot.scp st.nScopes = { ctx := st.nCtxs, path := [st.nScopes] } := by
+  show upd st.scp st.nScopes _ st.nScopes = _
+  exact upd_same _ _ _
+
+theorem invX_newRoot {st : State} (h : Inv st) : InvX st.newRoot := by
+  refine h.x.addScope h.s (fun t ht => KeyEq.of_eq (newRoot_scp_old st ht)) (Or.inr ?_) ?_ ?_ ?_ ?_
+  · intro c
+    rw [newRoot_ctx]; split
+    · subst_vars; rw [h.s.freshCtx _ (Nat.le_refl _)]; exact Nat.le_refl _
+    · exact Nat.le_refl _
+  · rw [newRoot_scp_new]
+  · rw [newRoot_scp_new]; intro p hp; cases hp
+  · rw [newRoot_scp_new]
+  · rw [newRoot_scp_new]
+
+/-- the record of an already allocated scope after `newChild`: only the parent's counter and ghost
+child list change -/
+theorem newChild_scp_old (st : State) (p : Nat) (iso : Bool) {t : Nat} (hne : t ≠ st.nScopes) :
+    (st.newChild p iso).scp t =
+      if t = p ∧ (!(st.isDone p)) = true then
+        { st.scp p with wg := (st.scp p).wg + 1, kids := st.nScopes :: (st.scp p).kids }
+      else st.scp t := by
+  unfold State.newChild
+  by_cases hr : (!(st.isDone p)) = true <;> cases iso <;>
+    simp only [hr, if_true, if_false, and_true, and_false, Bool.false_eq_true] <;>
+    show upd _ st.nScopes _ t = _ <;> rw [upd_ne _ _ hne]
+  · exact modScp_scp st p t _
+  · exact modScp_scp st p t _
+
+theorem newChild_scp_new (st : State) (p : Nat) (iso : Bool) :
+    (st.newChild p iso).scp st.nScopes =
+      { parent := some p, registered := !(st.isDone p), iso := iso,
+        ctx := if iso then st.nCtxs else (st.scp p).ctx,
+        path := (st.scp p).path ++ [st.nScopes], late := (st.scp p).phase.waited } := by
+  unfold State.newChild
+  by_cases hr : (!(st.isDone p)) = true <;> cases iso <;>
+    simp only [hr, if_true, if_false, Bool.false_eq_true] <;>
+    show upd _ st.nScopes _ st.nScopes = _ <;> exact upd_same _ _ _
+
+theorem newChild_ctx (st : State) (p : Nat) (iso : Bool) (c : Nat) :
+    (st.newChild p iso).ctx c =
+      if iso = true ∧ c = st.nCtxs then { parent := some (st.scp p).ctx, watch := true } else st.ctx c := by
+  unfold State.newChild
+  by_cases hr : (!(st.isDone p)) = true <;> cases iso <;>
+    simp only [hr, if_true, if_false, true_and, false_and, Bool.false_eq_true] <;>
+    first | rfl | (show upd _ st.nCtxs _ c = _; rw [upd_apply]; rfl)
+
+theorem newChild_nScopes (st : State) (p : Nat) (iso : Bool) : (st.newChild p iso).nScopes = st.nScopes + 1 := by
+  unfold State.newChild
+  by_cases hr : (!(st.isDone p)) = true <;> cases iso <;> simp only [hr, if_true, if_false, Bool.false_eq_true] <;> rfl
+
+theorem invX_newChild {st : State} (h : Inv st) {p : Nat} (hp : p < st.nScopes) (iso : Bool) :
+    InvX (st.newChild p iso) := by
+  refine h.x.addScope h.s ?_ (Or.inr ?_) ?_ ?_ ?_ ?_
+  · intro t ht
+    rw [newChild_scp_old st p iso ht]; split
+    · rename_i hc; rw [hc.1]; exact ⟨rfl, rfl, rfl, rfl, rfl, rfl, rfl, rfl⟩
+    · exact KeyEq.refl _
+  · intro c
+    rw [newChild_ctx]; split
+    · rename_i hc; rw [hc.2, h.s.freshCtx _ (Nat.le_refl _)]; exact Nat.zero_le _
+    · exact Nat.le_refl _
+  · rw [newChild_scp_new]
+  · rw [newChild_scp_new]; intro q hq; cases hq; exact ⟨hp, rfl⟩
+  · rw [newChild_scp_new]
+  · rw [newChild_scp_new]
 
 /-! ### every step -/
 
+theorem inv_addListener {st : State} (h : Inv st) {s : Nat} (hs : s < st.nScopes) (ev : Ev) (fails : Bool)
+    (gate : Option Nat) : Inv (st.addListener s ev fails gate) :=
+  ⟨inv_on h.toInv0 hs _ _,
+   h.x.keyEq (st' := st.addListener s ev fails gate)
+     (keyEq_modScp st s (fun x => { x with listeners := x.listeners ++ [⟨st.nListeners, ev, fails, gate⟩] })
+       ⟨rfl, rfl, rfl, rfl, rfl, rfl, rfl, rfl⟩) (fun _ => Nat.le_refl _)⟩
+
 theorem inv_exec {st st' : State} {a : Act} {o : Outcome} (h : Inv st) (he : exec st a = some (st', o)) : Inv st' := by
   cases a with
-  | new => simp only [exec, Option.some.injEq, Prod.mk.injEq] at he; rw [← he.1]; exact inv_newRoot h
+  | new =>
+    simp only [exec, execWith, Option.some.injEq, Prod.mk.injEq] at he; rw [← he.1]
+    exact ⟨inv_newRoot h.toInv0, invX_newRoot h⟩
   | child p iso =>
-    simp only [exec] at he
+    simp only [exec, execWith] at he
     split at he
     · rename_i hg
-      simp only [Option.some.injEq, Prod.mk.injEq] at he; rw [← he.1]; exact inv_newChild h hg.1 iso
+      simp only [Option.some.injEq, Prod.mk.injEq] at he; rw [← he.1]
+      exact ⟨inv_newChild h.toInv0 hg.1 iso, invX_newChild h hg.1 iso⟩
     · cases he
   | on s ev fails =>
-    simp only [exec] at he
+    simp only [exec, execWith] at he
     split at he
     · rename_i hs
       split at he
       · simp only [Option.some.injEq, Prod.mk.injEq] at he; rw [← he.1]; exact h
-      · simp only [Option.some.injEq, Prod.mk.injEq] at he; rw [← he.1]; exact inv_on h hs _ _
+      · split at he
+        · cases he
+        · simp only [Option.some.injEq, Prod.mk.injEq] at he; rw [← he.1]; exact inv_addListener h hs _ _ _
+    · cases he
+  | onGated s ev fails g =>
+    simp only [exec, execWith] at he
+    split at he
+    · rename_i hs
+      split at he
+      · simp only [Option.some.injEq, Prod.mk.injEq] at he; rw [← he.1]; exact h
+      · split at he
+        · cases he
+        · simp only [Option.some.injEq, Prod.mk.injEq] at he; rw [← he.1]; exact inv_addListener h hs.1 _ _ _
     · cases he
   | addTasks s n =>
-    simp only [exec] at he
+    simp only [exec, execWith] at he
     split at he
     · rename_i hs
       split at he
       · simp only [Option.some.injEq, Prod.mk.injEq] at he; rw [← he.1]; exact h
-      · simp only [Option.some.injEq, Prod.mk.injEq] at he; rw [← he.1]; exact inv_addTasks h hs n
+      · simp only [Option.some.injEq, Prod.mk.injEq] at he; rw [← he.1]
+        exact ⟨inv_addTasks h.toInv0 hs n, h.x.modScpKey s _ ⟨rfl, rfl, rfl, rfl, rfl, rfl, rfl, rfl⟩⟩
     · cases he
   | doneTask s =>
-    simp only [exec] at he
+    simp only [exec, execWith] at he
     split at he
     · rename_i hg
-      simp only [Option.some.injEq, Prod.mk.injEq] at he; rw [← he.1]; exact inv_doneTask h hg.1 hg.2
+      simp only [Option.some.injEq, Prod.mk.injEq] at he; rw [← he.1]
+      exact ⟨inv_doneTask h.toInv0 hg.1 hg.2, h.x.modScpKey s _ ⟨rfl, rfl, rfl, rfl, rfl, rfl, rfl, rfl⟩⟩
     · cases he
   | appErr s =>
-    simp only [exec] at he
+    simp only [exec, execWith] at he
     split at he
     · rename_i hs
       split at he
       · simp only [Option.some.injEq, Prod.mk.injEq] at he; rw [← he.1]; exact h
-      · simp only [Option.some.injEq, Prod.mk.injEq] at he; rw [← he.1]; exact inv_appErr h hs
+      · simp only [Option.some.injEq, Prod.mk.injEq] at he; rw [← he.1]
+        exact ⟨inv_appErr h.toInv0 hs, h.x.evStep (evStep_appendError st s)⟩
     · cases he
   | kill s =>
-    simp only [exec] at he
+    simp only [exec, execWith] at he
     split at he
     · rename_i hs
       split at he
       · simp only [Option.some.injEq, Prod.mk.injEq] at he; rw [← he.1]; exact h
-      · simp only [Option.some.injEq, Prod.mk.injEq] at he; rw [← he.1]; exact inv_kill h hs
+      · simp only [Option.some.injEq, Prod.mk.injEq] at he; rw [← he.1]
+        exact ⟨inv_kill h.toInv0 hs, h.x.evStep ((evStep_addError st s).trans (evStep_fire _ s .kill none))⟩
     · cases he
   | stop s =>
-    simp only [exec] at he
+    simp only [exec, execWith] at he
     split at he
     · rename_i hs
       split at he
       · simp only [Option.some.injEq, Prod.mk.injEq] at he; rw [← he.1]; exact h
-      · simp only [Option.some.injEq, Prod.mk.injEq] at he; rw [← he.1]; exact inv_stop h hs
+      · simp only [Option.some.injEq, Prod.mk.injEq] at he; rw [← he.1]
+        exact ⟨inv_stop h.toInv0 hs, h.x.evStep ((evStep_setDone st s).trans (evStep_fire _ s .stop none))⟩
     · cases he
   | close s =>
-    simp only [exec] at he
+    simp only [exec, execWith] at he
     split at he
     · rename_i hs
       split at he
@@ -671,24 +1188,35 @@ theorem inv_exec {st st' : State} {a : Act} {o : Outcome} (h : Inv st) (he : exe
         exact inv_beginClose h hs (by simpa using hph)
     · cases he
   | finish s =>
-    simp only [exec] at he
+    simp only [exec, execWith] at he
     split at he
     · rename_i hg
-      simp only [Option.some.injEq, Prod.mk.injEq] at he; rw [← he.1]; exact inv_finishClose h hg.1 hg.2.1
+      simp only [Option.some.injEq] at he
+      have := (inv_runSteps h hg.1 8).1
+      rw [he] at this; exact this
     · cases he
+  | step s =>
+    simp only [exec, execWith] at he
+    split at he
+    · rename_i hs; exact inv_micro h hs he
+    · cases he
+  | release g =>
+    simp only [exec, execWith, Option.some.injEq, Prod.mk.injEq] at he; rw [← he.1]; exact inv_release h g
   | propagate c asKill =>
-    simp only [exec] at he
+    simp only [exec, execWith] at he
     split at he
     · split at he
       · rename_i hg
-        simp only [Option.some.injEq, Prod.mk.injEq] at he; rw [← he.1]; exact inv_propagate h hg.1 asKill
+        simp only [Option.some.injEq, Prod.mk.injEq] at he; rw [← he.1]
+        exact ⟨inv_propagate h.toInv0 hg.1 asKill, invX_modCtx h.x c _ (by cases asKill <;> simp)⟩
       · cases he
     · cases he
   | watcherExit c =>
-    simp only [exec] at he
+    simp only [exec, execWith] at he
     split at he
     · rename_i hg
-      simp only [Option.some.injEq, Prod.mk.injEq] at he; rw [← he.1]; exact inv_watcherExit h hg.1 hg.2.2.2
+      simp only [Option.some.injEq, Prod.mk.injEq] at he; rw [← he.1]
+      exact ⟨inv_watcherExit h.toInv0 hg.1 hg.2.2.2, invX_modCtx h.x c _ (Nat.le_refl _)⟩
     · cases he
 
 theorem inv_step {st st' : State} {a : Act} (h : Inv st) (hs : step st a = some st') : Inv st' := by
